@@ -219,7 +219,9 @@ class Check(PropertyCheck):
                   "the conversion itself; side effects of library setters on other fields (Host / Content-Length / Content-Type "
                   "lines rewritten by host, port and content setters) are outside the model and masked in the comparison. "
                   "Flow.get_state/set_state are assumed to snapshot/restore faithfully (checked on every case by the before/after "
-                  "comparison, not proved). DNS flows are not exercised.")
+                  "comparison, not proved). DNS flows are not exercised. LENIENT BRANCHES of the oracle: a refusal may carry any "
+                  "non-200 status; host validity is left to the implementation (the statement's 'invalid host' is whatever the setter "
+                  "rejects); in the field tie Host / Content-Length / Content-Type header lines are masked (library side effects).")
     technique = "Lean 4 proof (transaction model, induction over the step list) + differential sessions against the real tornado handler"
     rule = ("sessions of 1-3 edit documents over http flows with/without response, websocket and tcp flows, optionally with a "
             "prior backup(); documents mix valid values with unknown keys, non-dict sub-documents, malformed ports/status codes, "
